@@ -1,7 +1,7 @@
 #!/usr/bin/env python3
 """writes seeded/<id>/meta.json: which property the change breaks, what it needs to manifest (taken from the
 author's notes), what was run to confirm it (confirm.log), and which rules of the current checks report it
-(obtained by applying the patch to /repo, running the quick check, and undoing it straight afterwards)."""
+(obtained by applying the patch to a scratch copy of /repo/tlx and running the quick check against it)."""
 import glob, json, os, re, subprocess, sys
 HERE = os.path.dirname(os.path.dirname(os.path.abspath(__file__)))
 only = sys.argv[1:]
@@ -27,19 +27,23 @@ for d in sorted(glob.glob(os.path.join(HERE, "seeded", "C*_*"))):
     conf = open(os.path.join(d, "confirm.log")).read().strip().splitlines() if os.path.exists(os.path.join(d, "confirm.log")) else []
     confirmed = [l for l in conf if l.startswith("CONFIRMED")]
     tests = [l for l in conf if "tests passed" in l]
-    # run the check against the change
-    assert not subprocess.run(["git", "-C", "/repo", "status", "--porcelain", "--untracked-files=no"], capture_output=True, text=True).stdout.strip(), "/repo not clean"
-    ap = subprocess.run(["git", "-C", "/repo", "apply", os.path.join(d, "patch.diff")], capture_output=True, text=True)
+    # run the check against the change: on a scratch copy of /repo/tlx (the check reads the tree named by TLX_REPO), so that
+    # nothing else that happens to read /repo at the same time sees the change; `git apply --check` tells whether the
+    # patch still applies to the current HEAD
+    import shutil, tempfile
+    ap = subprocess.run(["git", "-C", "/repo", "apply", "--check", os.path.join(d, "patch.diff")], capture_output=True, text=True)
     rules, rc, applies = [], None, ap.returncode == 0
     if applies:
+        scratch = tempfile.mkdtemp(prefix="mkmeta_", dir="/var/tmp")
         try:
-            env = dict(os.environ, VERIF_OUT="/var/tmp/mkmeta_out")
+            shutil.copytree("/repo/tlx", os.path.join(scratch, "tlx"))
+            subprocess.run(["patch", "-p1", "-s", "--no-backup-if-mismatch", "-i", os.path.join(d, "patch.diff")], cwd=scratch, check=True)
+            env = dict(os.environ, TLX_REPO=scratch, VERIF_OUT=os.path.join(scratch, "_out"))
             p = subprocess.run([os.path.join(HERE, "check"), pid], capture_output=True, text=True, env=env)
             rc = p.returncode
             rules = sorted(set(re.findall(r"rule (\S+) violated in (\S+):", p.stdout)))
         finally:
-            subprocess.run(["git", "-C", "/repo", "checkout", "--", "."])
-            subprocess.run(["rm", "-rf", "/var/tmp/mkmeta_out"])
+            shutil.rmtree(scratch, ignore_errors=True)
     meta = {
         "id": sid,
         "property": pid,
